@@ -89,13 +89,36 @@ def sweep(tier, seed):
                     fails.append({'input': {'merge': [c1, c2], 'data_key': data_key}, 'observed': bad, 'expected': 'concatenation, operands untouched'})
                     if len(fails) >= 6:
                         return _res(n, fails, nmax)
+    # larger browsers: order of the selection (a set of positions iterates in hash order beyond 8 entries) and repeated queries
+    for data_key in ('results', 'd'):
+        content = [{'seven': i % 7, 'three': i % 3, 'rank': i, data_key: [i]} for i in range(40)]
+        orig = copy.deepcopy(content)
+        br = Browser(content, data_key=data_key, global_vars={'g': 1})
+        qs2 = [{'seven': v} for v in range(7)] + [{'three': v} for v in range(3)] + [{'seven': a, 'three': b} for a in range(7) for b in range(3)]
+        for rep in range(2):        # every query twice: a query must not disturb the next one
+            for kwargs in qs2:
+                n += 1
+                want = _scan(orig, data_key, kwargs, (), ())
+                sub = br.filter_by(**kwargs)
+                got = [_strip(x) for x in sub.content]
+                if got != want:
+                    fails.append({'input': {'large': True, 'data_key': data_key, 'kwargs': kwargs, 'repeat': rep},
+                                  'observed': f'filter_by returned ranks {[x["rank"] for x in got]}, a direct scan selects {[x["rank"] for x in want]}',
+                                  'expected': 'the scanned items in original order'})
+                    break
+            else:
+                continue
+            break
+        if len(fails) >= 6:
+            break
     return _res(n, fails, nmax)
 
 
 def _res(n, fails, nmax):
     return {'name': 'browser-queries-native', 'evaluations': n, 'distinct': n, 'failures': fails[:8], 'exhaustive': True,
             'bound': f'all browsers with <= {nmax} items over keys {{a, b}} (absent / 0 / 1), unhashable data under data key in {{results, d}}, '
-                     'x 180 queries (values incl. absent ones, include, exclude) + merges of 1-item browsers and a filter chain; compared with a direct scan',
+                     'x 180 queries (values incl. absent ones, include, exclude) + merges of 1-item browsers and a filter chain + a 40-item browser with 31 '
+                     'queries asked twice (order of the selection, queries do not disturb each other); compared with a direct scan',
             'samples': [{'content': [{'a': 0, 'results': [1, 0]}], 'kwargs': {'a': 0}, 'include': ['b'], 'exclude': []}]}
 
 
@@ -150,7 +173,7 @@ def _first_index(orig, it, want, i):
 
 def replay(inp):
     from valjean.eponine.browser import Browser, NoItemBrowserError, TooManyItemsBrowserError
-    if 'merge' in inp:
+    if 'merge' in inp or inp.get('large'):
         out = sweep('quick', 0)
         return {'reproduced': bool(out['failures']), 'observed': out['failures'][:1]}
     content = copy.deepcopy(inp['content'])
